@@ -709,12 +709,113 @@ fn c16a_check(case: &ChanCase, st: &mut Stats) -> Result<(), String> {
     })
 }
 
+// (a') the same channel under real thread parallelism: several sender threads, no consumer until they are done
+
+#[derive(Debug, Clone, serde::Serialize, serde::Deserialize, Hash)]
+pub struct ChanThreadsCase {
+    /// Per sender thread: the (signer, kind, view) it sends, in order. All signatures are valid.
+    threads: Vec<Vec<(u8, u8, u8)>>,
+    /// How many times the whole race is repeated (fresh channel each time).
+    reps: u16,
+}
+
+fn chan_msg_cached(s: u8, k: u8, v: u8) -> crate::sim::Msg {
+    use std::{collections::HashMap, sync::{Mutex, OnceLock}};
+    static CACHE: OnceLock<Mutex<HashMap<(u8, u8, u8), crate::sim::Msg>>> = OnceLock::new();
+    let c = CACHE.get_or_init(Default::default);
+    if let Some(m) = c.lock().unwrap().get(&(s, k, v)) {
+        return m.clone();
+    }
+    let m = chan_msg(s, k, v, true);
+    c.lock().unwrap().insert((s, k, v), m.clone());
+    m
+}
+
+fn c16t_check(case: &ChanThreadsCase, st: &mut Stats) -> Result<(), String> {
+    use std::sync::{atomic::{AtomicUsize, Ordering}, Arc};
+    // everything a thread sends, pre-signed
+    let plans: Vec<Vec<((u8, u8, u8), crate::sim::Msg)>> = case.threads.iter().map(|t| t.iter().map(|(s, k, v)| ((*s % 5, *k % 4, *v), chan_msg_cached(*s % 5, *k % 4, *v))).collect()).collect();
+    let mut want: std::collections::BTreeMap<(u8, u8), u8> = Default::default();
+    for t in &plans {
+        for ((s, k, v), _) in t {
+            let e = want.entry((*s, *k)).or_insert(*v);
+            *e = (*e).max(*v);
+        }
+    }
+    let contended = {
+        let mut per_key: std::collections::BTreeMap<(u8, u8), std::collections::BTreeSet<usize>> = Default::default();
+        for (i, t) in plans.iter().enumerate() {
+            for ((s, k, _), _) in t {
+                per_key.entry((*s, *k)).or_default().insert(i);
+            }
+        }
+        per_key.values().any(|s| s.len() >= 2)
+    };
+    for rep in 0..case.reps.max(1) {
+        let (send, mut recv) = zksync_consensus_bft::create_input_channel();
+        let ready = Arc::new(AtomicUsize::new(0));
+        let n = plans.len();
+        std::thread::scope(|sc| {
+            let send = &send;
+            for plan in &plans {
+                let ready = ready.clone();
+                sc.spawn(move || {
+                    ready.fetch_add(1, Ordering::SeqCst);
+                    while ready.load(Ordering::SeqCst) < n {
+                        std::hint::spin_loop();
+                    }
+                    for (_, m) in plan {
+                        let (ack, _ack_recv) = zksync_concurrency::oneshot::channel();
+                        send.send(zksync_consensus_bft::FromNetworkMessage { msg: m.clone(), ack });
+                    }
+                });
+            }
+        });
+        // drain on a deterministic runtime: everything pending, then the channel must be empty
+        let got: Vec<crate::sim::Msg> = det::run(|| async {
+            let life = det::Life::new();
+            let mut out = vec![];
+            loop {
+                let mut fut = Box::pin(recv.recv(&life.ctx));
+                match det::until_quiescent(&mut fut).await {
+                    Some(Ok(m)) => out.push(m.msg),
+                    _ => break,
+                }
+            }
+            life.end(Vec::<tokio::task::JoinHandle<()>>::new()).await;
+            out
+        });
+        let mut seen: std::collections::BTreeMap<(u8, u8), Vec<u8>> = Default::default();
+        for m in &got {
+            // identify the message among the planned ones
+            let id = plans.iter().flatten().find(|(_, pm)| pm == m).map(|(id, _)| *id);
+            let Some((s, k, v)) = id else { return Err(format!("rep {rep}: the channel delivered a message nobody sent")) };
+            seen.entry((s, k)).or_default().push(v);
+        }
+        for ((s, k), max) in &want {
+            match seen.get(&(*s, *k)).map(|v| v.as_slice()) {
+                Some([v]) if v == max => {}
+                Some([v]) => return Err(format!("rep {rep}: after {n} concurrent senders the pending message of signer {s} kind {k} has view {v}; view {max} was sent and must have replaced or pre-empted it")),
+                Some(vs) => return Err(format!("rep {rep}: after {n} concurrent senders {} messages of signer {s} kind {k} are pending at once (views {vs:?}); at most one per sender and kind may be", vs.len())),
+                None => return Err(format!("rep {rep}: the message of signer {s} kind {k} (view {max}) was lost")),
+            }
+        }
+    }
+    if contended {
+        st.class("two_threads_send_for_the_same_sender_and_kind");
+        st.nontrivial(common::fingerprint(case));
+    }
+    st.sample(|| serde_json::to_value(case).unwrap());
+    Ok(())
+}
+
 pub fn c16(env: &Env) -> i32 {
     if let Mode::Replay(path) = env.mode() {
         let (part, case) = Env::read_replay(&path);
         let r = match part.as_str() {
             "input_channel" => common::replay_case::<ChanCase>(case, c16a_check),
             "replica_caches" => common::replay_case::<SimCase>(case, c16b_check),
+            "input_channel_threads" => common::replay_case::<ChanThreadsCase>(case, c16t_check),
             p => Err(format!("unknown part {p}")),
         };
         return env.finish_replay(&path, r);
@@ -737,10 +838,27 @@ pub fn c16(env: &Env) -> i32 {
         },
         c16a_check,
     ));
+    parts.extend(common::run_regress::<ChanThreadsCase>(env, "input_channel_threads", c16t_check));
+    {
+        // real threads: the shards run one after the other so that the sender threads of a case really run in parallel
+        let mut seq = env.clone_for_part();
+        seq.shards = 2;
+        parts.push(run_proptest(
+            &seq,
+            "input_channel_threads",
+            "the real input channel with 2-4 sender THREADS released together by a spin barrier, each sending 1-6 validly signed messages drawn from 2 signers x 2 kinds x views 0-9 (so that threads collide on the same sender and kind), no consumer while they run, repeated 25 times per case on a fresh channel; \
+             oracle (independent of the interleaving, valid for any linearisable channel): afterwards exactly one message per (sender, kind) is pending and it carries the highest view sent for it. Non-trivial = two threads send for the same (sender, kind)",
+            PartOpts { cases: env.tier.pick(300, 6_000), max_shrink_iters: 60, samples: 2 },
+            || {
+                proptest::collection::vec(proptest::collection::vec((0u8..2, 0u8..2, 0u8..10), 1..6), 2..=4).prop_map(|threads| ChanThreadsCase { threads, reps: 25 })
+            },
+            c16t_check,
+        ));
+    }
     parts.push(flood_part(env));
     env.finish(
         "exploration",
-        "model-based test of the input channel and flood schedules on real replicas",
+        "model-based test of the input channel (single-threaded against a list model, and under real sender threads against interleaving-independent invariants) and flood schedules on real replicas",
         &["the bound n^2 on inner accumulators is deliberately loose (a stale vote can survive inside the accumulator of a view another validator keeps alive); the flood sends far more than n^2 messages"],
         parts,
     )
